@@ -1,8 +1,11 @@
 #!/bin/bash
-# tools_mut.sh <patch> <Cxx> [tier]: apply a seeded change to /repo, run a check, undo the change
+# tools_mut.sh <patch> <Cxx> [tier]: apply a seeded change to /repo, run a check, undo the change.
+# The evidence file and replays written by the run against the changed tree are discarded.
 set -u
 patch=$1; pid=$2; tier=${3:-quick}
+cp /verif/evidence/$pid.json /tmp/evidence_$pid.bak 2>/dev/null
 git -C /repo apply "$patch" || exit 2
 ( cd /verif && /venv/bin/python check.py $pid $tier ); rc=$?
 git -C /repo checkout -- . ; git -C /repo clean -fdq src
+cp /tmp/evidence_$pid.bak /verif/evidence/$pid.json 2>/dev/null
 echo "rc=$rc"
